@@ -10,7 +10,8 @@ reading; v1 length linking.
 import ast
 
 from sa import AnalysisError, scopes
-from sa.astutil import dotted, src, stmt_text, params, find_stmts, calls_in, method_name, walk_no_nested, const
+from sa.pattern import pmatch, pfind
+from sa.astutil import dotted, src, stmt_text, params, find_stmts, calls_in, method_name, walk_no_nested, const, resolved_return
 from sa.guards import facts_at, paths_to, enclosing_conditions, decompose
 from sa.paths import PathEnumerator, Event
 
@@ -279,7 +280,7 @@ def check_v2_tables(model, rep):
         rep.ob('R19.3', mem.func.key, mem.func.where(), ok, f'{name} -> {accepted[0]}' if ok else
                f'the array operation `{name}` returns `{src(rets[0].value) if rets else "?"}` instead of {accepted[0]}', statement=f'op {name}')
     add = ops.members['add'].func
-    ok = '-arg if neg else arg' in src(add.node) and 'functools.reduce(numpy.add, negated)' in src(add.node)
+    ok = pmatch('functools.reduce(numpy.add, (-A_ if N_ else A_ for N_, A_ in args))', resolved_return(add.node)) is not None
     rep.ob('R19.3', add.key, add.where(), ok, 'add negates the terms preceded by minus and sums' if ok else 'the add operation changed', statement='op add')
     mul = ops.members['multiply'].func
     ok = 'numpy.multiply(self.append_axes(result, numpy.shape(arg)), arg)' in src(mul.node)
